@@ -185,7 +185,7 @@ mutual
         let e ← rwElse q els
         let cur' ← ifPush init c thn els body e cur
         if isLast then pure (.stop (← genLast q cur')) else pure (.go cur' [])
-    | .switch init tag cases, _, cur => do
+    | .switch init tag cases, isLast, cur => do
         let (newCases, allTrivial) ← rwCases q cases
         let trivialInit := !optIsYield init
         if trivialInit && allTrivial then pure (.go (← cur.push (.switch init tag cases) .trivial) [])
@@ -203,7 +203,11 @@ mutual
             pure (.go (← cur.push (.switch none tag cases) .trivial) frames)
           else do
             let (cur, fr2) ← combineIfNecessary q cur
-            pure (.go (← cur.push (.switch none tag newCases) .switchk) (fr2 ++ frames))
+            let cur' ← cur.push (.switch none tag newCases) .switchk
+            -- endWithSwitch: a yielding switch ending a block gets the implicit return-normal, like if
+            if isLast && !q.switchLastGetsNoNormal then
+              pure (.stop (plug (fr2 ++ frames) (← genLast q cur')))
+            else pure (.go cur' (fr2 ++ frames))
     | .for_ init cond post body, _, cur => do
         let b ← rwStmts q body (Blk.mk0 .fork)
         let trivialInit := !optIsYield init
